@@ -332,6 +332,14 @@ func (m *StateMachine) handleHeightCommitted(ctx context.Context, rlc *tsi.Round
 	// Don't read from the channel again, especially since it's closed.
 	rlc.HeightCommitted = nil
 
+	if rlc.S != tsi.StepCommitWait && rlc.S != tsi.StepAwaitingFinalization {
+		// The mirror commits on its own schedule: if we are slow to read view updates,
+		// this signal can overtake the view that shows us the precommit majority.
+		// It only allows skipping the commit wait, so it is safe to disregard here;
+		// the timer of the current step must keep running.
+		return true
+	}
+
 	rlc.CommitWaitElapsed = true
 
 	if rlc.CancelTimer != nil {
@@ -344,13 +352,6 @@ func (m *StateMachine) handleHeightCommitted(ctx context.Context, rlc *tsi.Round
 		// We were already awaiting finalization,
 		// so nothing to do here.
 		return true
-	}
-
-	if rlc.S != tsi.StepCommitWait {
-		// It's probably also acceptable to be on tsi.StepAwaitingFinalization?
-		panic(fmt.Errorf(
-			"BUG: expected to be on step commit wait, got %s", rlc.S,
-		))
 	}
 
 	if len(rlc.FinalizedValSet.Validators) == 0 {
